@@ -98,6 +98,7 @@ type CertSpec struct {
 	Sgx       *SgxSpec
 	ExtraExts int // additional dummy extensions (changes the extension count)
 	NoKeyUsageCertSign bool
+	NoKeyUsageCrlSign  bool // a CA whose key usage lacks cRLSign (keyCertSign stays)
 }
 
 type BlockSpec struct {
@@ -173,6 +174,7 @@ type RespSpec struct {
 	AltJSON   []byte   // the unsigned alternative document for Kind "alt"
 	SigMut    func([]byte) []byte // applied to the raw signature before hex encoding
 	SigString *string  // overrides the hex string entirely
+	SigStrMut func(string) string // applied to the hex spelling of the (genuine) signature
 	MemberMut func([]byte) []byte // applied to the member bytes AFTER signing (tampering)
 	HdrRoles  []string // issuer chain header: certificate roles (default signer, root)
 	HdrMode   string   // "ok" | "absent" | "two" | "empty" | "badescape" | "wrongtype" | "garbageder"
@@ -355,6 +357,9 @@ func (s *Spec) buildCert(c *CertSpec) *BuiltCert {
 	if c.IsCA && !c.NoKeyUsageCertSign {
 		tmpl.KeyUsage |= x509.KeyUsageCertSign | x509.KeyUsageCRLSign
 	}
+	if c.NoKeyUsageCrlSign {
+		tmpl.KeyUsage &^= x509.KeyUsageCRLSign
+	}
 	if c.Sgx != nil && !c.Sgx.Absent {
 		tmpl.ExtraExtensions = append(tmpl.ExtraExtensions, pkix.Extension{Id: oidSgx, Critical: c.Sgx.Critical, Value: sgxExtValue(c.Sgx)})
 	}
@@ -536,6 +541,9 @@ func (w *World) response(name string, member []byte, r *RespSpec, hdrKey string,
 		sig = r.SigMut(sig)
 	}
 	sigStr := hex.EncodeToString(sig)
+	if r.SigStrMut != nil {
+		sigStr = r.SigStrMut(sigStr)
+	}
 	if r.SigString != nil {
 		sigStr = *r.SigString
 	}
